@@ -189,7 +189,7 @@ __CPROVER_loop_invariant(GHOST_MATCH
 __CPROVER_decreases((SAL->n - Aiter.pos) + (SBR->n - Biter.pos))
 //@end
 
-//@harness h_Susc_prepare enforce=Susceptibility_prepare props=C14,C19 min_obl=2300 timeout=300 reach=4
+//@harness h_Susc_prepare enforce=Susceptibility_prepare props=C14,C19 min_obl=2280 timeout=300 reach=4
 void h_Susc_prepare(void)
 {
   struct Susceptibility *chi;
@@ -356,10 +356,10 @@ __CPROVER_ensures(!VERIF_thrown ==> (self->SubtractDisconnected && C_SAME(self->
 __CPROVER_ensures(VERIF_thrown ==> (!self->SubtractDisconnected == !__CPROVER_old(self->SubtractDisconnected) && C_SAME(self->ave_A, __CPROVER_old(self->ave_A)) && C_SAME(self->ave_B, __CPROVER_old(self->ave_B))))
 //@end
 
-//@harness h_Susc_subtract_values enforce=Susceptibility_subtractDisconnected2c props=C14 min_obl=70 timeout=120 reach=1
+//@harness h_Susc_subtract_values enforce=Susceptibility_subtractDisconnected2c props=C14 min_obl=71 timeout=120 reach=1
 void h_Susc_subtract_values(void) { struct Susceptibility *chi; cplx a, b; Susceptibility_subtractDisconnected2c(chi, a, b); REACH("exit"); }
 
-//@harness h_Susc_subtract_EA enforce=Susceptibility_subtractDisconnected2e props=C14 min_obl=265 timeout=120 reach=2
+//@harness h_Susc_subtract_EA enforce=Susceptibility_subtractDisconnected2e props=C14 min_obl=245 timeout=120 reach=2
 void h_Susc_subtract_EA(void)
 {
   struct Susceptibility *chi; struct EnsembleAverage *ea, *eb;
@@ -367,7 +367,7 @@ void h_Susc_subtract_EA(void)
   if (VERIF_thrown) REACH("thrown"); else REACH("exit");
 }
 
-//@harness h_Susc_subtract_own enforce=Susceptibility_subtractDisconnected0 props=C14 min_obl=258 timeout=120 reach=2
+//@harness h_Susc_subtract_own enforce=Susceptibility_subtractDisconnected0 props=C14 min_obl=246 timeout=120 reach=2
 void h_Susc_subtract_own(void)
 {
   struct Susceptibility *chi;
@@ -407,13 +407,13 @@ void h_Susc_ctor(void)
   REACH("exit");
 }
 
-//@harness h_Susc_call_z enforce=Susceptibility_call_z props=C14 min_obl=490 timeout=120 reach=2
+//@harness h_Susc_call_z enforce=Susceptibility_call_z props=C14 min_obl=491 timeout=120 reach=2
 void h_Susc_call_z(void) { struct Susceptibility *chi; cplx z; Susceptibility_call_z(chi, z); REACH("exit"); }
 
-//@harness h_Susc_call_n enforce=Susceptibility_call_n props=C14 min_obl=505 timeout=120 reach=2
+//@harness h_Susc_call_n enforce=Susceptibility_call_n props=C14 min_obl=507 timeout=120 reach=2
 void h_Susc_call_n(void) { struct Susceptibility *chi; long n; Susceptibility_call_n(chi, n); REACH("exit"); }
 
-//@harness h_Susc_of_tau enforce=Susceptibility_of_tau props=C14 min_obl=475 timeout=120 reach=2
+//@harness h_Susc_of_tau enforce=Susceptibility_of_tau props=C14 min_obl=474 timeout=120 reach=2
 void h_Susc_of_tau(void) { struct Susceptibility *chi; double tau; Susceptibility_of_tau(chi, tau); REACH("exit"); }
 
 /* =====================================================================================================================
